@@ -71,6 +71,7 @@ func reportWho(w *World, r *Report, pkg, tname, fname string, allowed ...string)
 func runC15(c *Ctx, w *World, r *Report) {
 	names := []string{"bitmap.NewTailBitmap", "bitmap.(*TailBitmap).Compact", "bitmap.(*TailBitmap).Set", "bitmap.(*TailBitmap).Get", "bitmap.(*TailBitmap).Get1"}
 	fns, ok := requireFuncs(w, r, names...)
+	ReportTableWidth(w, r)
 	ReportScale(w, r, names...)
 	ReportPair(w, r, names...)
 	refs := ReportBitRefs(w, r, names[2:]...)
